@@ -1073,6 +1073,30 @@ fn template_family(out: &mut Out) {
             }
         }
     }
+    // instants that are not representable as a (signed) Unix time must be refused, not wrapped into a wrong date
+    // (the value reaches the function through the template variable, which is a u64)
+    for ts in [9223372036854775808u64, 18446744073709551615, 18446744073709465216, 18446735739108322816] {
+        out.cases += 1;
+        let vars = zerv::version::zerv::ZervVars { major: Some(1), bumped_timestamp: Some(ts), ..Default::default() };
+        let z = zerv::version::zerv::Zerv { schema: zerv::version::zerv::ZervSchema::semver_default().unwrap(), vars };
+        let tpl: Template<String> = Template::new("[{{ format_timestamp(value=bumped_timestamp, format=\"%Y-%m-%d %H:%M:%S\") }}]".to_string());
+        match std::panic::catch_unwind(std::panic::AssertUnwindSafe(|| tpl.render_string(Some(&z)))) {
+            Err(_) => out.cex("template_functions", format!("format_timestamp(value=bumped_timestamp) with bumped_timestamp = {ts} panicked")),
+            Ok(Ok(r)) => out.cex("template_functions", format!("format_timestamp(value=bumped_timestamp) with bumped_timestamp = {ts} prints {r:?}: the instant is {ts} seconds after 1970, far beyond year 9999 — not that date")),
+            Ok(Err(_)) => {}
+        }
+    }
+    // a `length` / `max_length` argument that is present must bound the result (or be refused): Tera arithmetic and filters yield floats
+    for (expr, bound) in [("hash(value=\"x\", length=3.0)", 3usize), ("hash(value=\"x\", length=7/2)", 4), ("hash_int(value=\"x\", length=4.0)", 4),
+                          ("prefix(value=\"abcdefghijklmnopqrstuvwxyz\", length=3.7 | round)", 4), ("hash(value=\"x\", length=2.0+1)", 3),
+                          ("sanitize(value=\"abcdefghijkl\", max_length=4.0)", 4), ("sanitize(value=\"abcd-efgh-ijkl\", separator=\"-\", max_length=4.0)", 4)] {
+        out.cases += 1;
+        if let Ok(r) = render(format!("{{{{ {expr} }}}}")) {
+            if r.chars().count() > bound {
+                out.cex("template_functions", format!("{expr} = {r:?}: {} characters although the length argument asks for at most {bound}", r.chars().count()));
+            }
+        }
+    }
 }
 
 static LAST_PANIC: std::sync::Mutex<String> = std::sync::Mutex::new(String::new());
@@ -1163,14 +1187,15 @@ fn placement_family(out: &mut Out, semver: bool) {
     }
     let uint = Sanitizer::uint();
     let strs = if semver { Sanitizer::semver_str() } else { Sanitizer::pep440_local_str() };
+    // "integer-valued": a value that reads as a number of the format's field width (SemVer fields are u64, PEP 440 fields u32)
     let flat = |v: &str| -> Vec<String> {
-        v.split('.').filter(|p| !p.is_empty()).map(|p| match p.parse::<u32>() {
-            Ok(n) => n.to_string(),
-            Err(_) => if semver { p.to_string() } else { p.to_lowercase() },
+        v.split('.').filter(|p| !p.is_empty()).map(|p| {
+            let as_num = if semver { p.parse::<u64>().ok().map(|n| n.to_string()) } else { p.parse::<u32>().ok().map(|n| n.to_string()) };
+            as_num.unwrap_or_else(|| if semver { p.to_string() } else { p.to_lowercase() })
         }).collect()
     };
-    let int_of = |c: &C, vars: &ZervVars| -> Option<u32> {
-        c.resolve_value(vars, &uint).filter(|v| !v.is_empty()).and_then(|v| v.parse::<u32>().ok())
+    let int_of = |c: &C, vars: &ZervVars| -> Option<u64> {
+        c.resolve_value(vars, &uint).filter(|v| !v.is_empty()).and_then(|v| if semver { v.parse::<u64>().ok() } else { v.parse::<u32>().ok().map(|n| n as u64) })
     };
     let text_of = |c: &C, vars: &ZervVars| -> Vec<String> {
         c.resolve_value(vars, &strs).filter(|v| !v.is_empty()).map(|v| flat(&v)).unwrap_or_default()
@@ -1187,7 +1212,7 @@ fn placement_family(out: &mut Out, semver: bool) {
                     out.cases += 1;
                     let zerv = Zerv { schema: schema.clone(), vars: vars.clone() };
                     let expected = if semver {
-                        let mut nums: Vec<u32> = Vec::new();
+                        let mut nums: Vec<u64> = Vec::new();
                         let mut pre: Vec<String> = Vec::new();
                         for c in core {
                             match int_of(c, vars) {
@@ -1217,7 +1242,7 @@ fn placement_family(out: &mut Out, semver: bool) {
                         if !b.is_empty() { s.push('+'); s.push_str(&b.join(".")); }
                         s
                     } else {
-                        let mut rel: Vec<u32> = Vec::new();
+                        let mut rel: Vec<u64> = Vec::new();
                         let mut local: Vec<String> = Vec::new();
                         for c in core {
                             match int_of(c, vars) { Some(n) => rel.push(n), None => local.extend(text_of(c, vars)) }
